@@ -250,6 +250,8 @@ class Check:
         self.tlc_runs = []
         self.notes = []
         self.exhaustive = False
+        global _CURRENT_CHECK
+        _CURRENT_CHECK = self
 
     # -- bookkeeping ----
     def count(self, key=None, n=1):
@@ -429,13 +431,50 @@ def _jd(o):
     return str(o)
 
 
+_CURRENT_CHECK = None
+
+
+def _raised_in_code_under_test(tb):
+    """True iff, below the deepest harness frame of the traceback, there is a frame of the repository:
+    the code under test raised on a call the harness made (and that the unchanged tree accepts).  An
+    exception whose innermost frames are the harness's own (a renamed attribute, a changed signature
+    rejected at the call boundary) is a machinery failure instead."""
+    import traceback
+    frames = traceback.extract_tb(tb)
+    hdir = os.path.join(VERIF, "harness") + os.sep
+    last_h = max([i for i, f in enumerate(frames) if os.path.abspath(f.filename).startswith(hdir)], default=-1)
+    repo = os.path.abspath(REPO) + os.sep
+    for f in frames[last_h + 1:]:
+        if os.path.abspath(f.filename).startswith(repo):
+            return "%s:%s" % (os.path.relpath(os.path.abspath(f.filename), repo), frames[-1].name)
+    return None
+
+
 def main_wrapper(fn):
-    """Run a check's main(), mapping MachineryError -> exit 2."""
+    """Run a check's main().  MachineryError -> exit 2.  An exception that escapes from the code under
+    test during a step the harness performs (the unchanged tree performs all of them) is a violation
+    of the property being replayed at that step: reported with its site, exit 1.  Anything else that
+    is not ours to classify -> exit 2."""
     try:
         rc = fn()
     except MachineryError as e:
         sys.stderr.write("MACHINERY FAILURE: %s\n" % e)
         sys.exit(2)
+    except Exception as e:  # noqa: BLE001
+        import traceback
+        tbs = traceback.format_exc()
+        where = _raised_in_code_under_test(e.__traceback__)
+        ck = _CURRENT_CHECK
+        if where is None or ck is None or isinstance(e, (MemoryError, OSError, ImportError)):
+            sys.stderr.write(tbs)
+            sys.stderr.write("MACHINERY FAILURE: uncaught %s\n" % type(e).__name__)
+            sys.exit(2)
+        sys.stderr.write(tbs)
+        ck.violation("uncaught:%s:%s" % (type(e).__name__, where),
+                     {"exception": type(e).__name__ + ": " + str(e)[:300], "traceback": tbs[-2500:],
+                      "note": "the code under test raised during a replay step that the unchanged tree performs"})
+        ck.notes.append("run aborted by an exception escaping from the code under test; coverage below is partial")
+        rc = ck.finish()
     sys.exit(rc)
 
 
